@@ -362,10 +362,12 @@ func caseDesc(ks []int64) string {
 // decided; tests on the literal values fork). ECMAScript (IsLooselyEqual / IsStrictlyEqual,
 // ECMA-262 §7.2.13-15) gives for each combination either a constant answer or an answer that
 // depends on the values:
-//   same kind: null, undefined -> true; boolean, number, bigint, string -> depends on the values
-//   null vs undefined: loose true, strict false
-//   null / undefined vs anything else: false
-//   two different non-nullish kinds: strict false; loose DEPENDS on the values (1n == 1, 0 == "", 1 == true)
+//
+//	same kind: null, undefined -> true; boolean, number, bigint, string -> depends on the values
+//	null vs undefined: loose true, strict false
+//	null / undefined vs anything else: false
+//	two different non-nullish kinds: strict false; loose DEPENDS on the values (1n == 1, 0 == "", 1 == true)
+//
 // Whenever the function claims to know the answer (ok = true), the answer must be that constant,
 // and where the answer depends on the values it must not be a constant.
 var c01LiteralKinds = []string{"ENull", "EUndefined", "EBoolean", "ENumber", "EBigInt", "EString"}
